@@ -84,10 +84,33 @@ theorem layout_sem_custom (fixed : Bool) (counts : List Int) (offset : Int) (j :
     constructor <;> intro h <;> omega
   exact decide_eq_decide.mpr e
 
+/-- **explicit_to_custom_spec**: the custom-bucket histogram keeps the explicit bounds as custom values
+    and bucket `j` holds `counts[j]` (OTLP explicit bucket counts are not cumulative, so there is no
+    de-cumulation; leading zero buckets are skipped through the span offset). -/
+theorem explicit_to_custom_spec (fixed : Bool) (p : ExplicitPoint) (t : Temp) (j : Nat) :
+    (explicitToCustomG fixed p t).1.custom = p.bounds ∧
+    (explicitToCustomG fixed p t).1.schema = customBucketsSchema ∧
+    (explicitToCustomG fixed p t).1.neg = ([], []) ∧
+    bucket (explicitToCustomG fixed p t).1.pos j = p.counts.getD j 0 :=
+  ⟨rfl, rfl, rfl, custom_bucket_eq fixed p.counts j⟩
+
 /-- Deltas and spans are aligned: number of deltas = Σ span lengths. -/
 theorem spans_deltas_aligned (counts : List Int) (offset : Int) (k : Nat) (adj : Bool) :
     totalLen (convertG true counts offset k adj).1 = (convertG true counts offset k adj).2.length :=
   (convertG_sem true counts offset k adj (Or.inl rfl)).2.2
+
+/-- **spans_wellformed** (code before and after the repair, every `k`): every span after the first
+    starts after a gap of more than two empty buckets and is non-empty; the number of deltas is the
+    sum of the span lengths. Documented exception, visible in the statement: the *first* span may
+    have length 0 (leading run of more than two empty target buckets, e.g. counts `[0,0,0,0,0,5]`
+    give spans `1:0,5:1`). -/
+theorem spans_wellformed (counts : List Int) (offset : Int) (k : Nat) (adj : Bool) :
+    (∀ fixed, ∀ s ∈ (convertG fixed counts offset k adj).1.drop 1, 2 < s.offset ∧ 1 ≤ s.length) ∧
+    totalLen (convertG true counts offset k adj).1 = (convertG true counts offset k adj).2.length :=
+  ⟨fun fixed => convertG_wf fixed counts offset k adj, spans_deltas_aligned counts offset k adj⟩
+
+theorem first_span_empty_witness :
+    convertG true [0, 0, 0, 0, 0, 5] 0 0 true = ([⟨1, 0⟩, ⟨5, 1⟩], [5]) := by decide
 
 /-- **time_conversion**: for nanosecond timestamps in the int64 range the millisecond timestamp is the
     truncation `⌊ns / 10^6⌋`. -/
